@@ -38,7 +38,12 @@ MaskSet(v) == {c \in Cells : Bit(v, CellIdx(c))}
 RECURSIVE EncodeSet(_)
 EncodeSet(S) == IF S = {} THEN 0 ELSE LET c == CHOOSE x \in S : TRUE IN Pow2[CellIdx(c)] + EncodeSet(S \ {c})
 
-SpecMask(m) == EncodeSet(VisibleSet(FName, PatternGrid(m), P, Fan))
+\* optional parameters of the raytracing visibility function: [abs, tn, td] (threshold tn / td)
+HasParams == "params" \in DOMAIN Tab
+SpecVisible(m) ==
+  IF HasParams THEN RaytracingThr(PatternGrid(m), Fan, Tab.params.abs, Tab.params.tn, Tab.params.td)
+  ELSE VisibleSet(FName, PatternGrid(m), P, Fan)
+SpecMask(m) == EncodeSet(SpecVisible(m))
 SpecMasks == [m \in 0..(NPatterns - 1) |-> SpecMask(m)]
 MaskOf(m) == IF Source = "code" THEN Tab.masks[m + 1] ELSE SpecMasks[m]
 Toggle(m, k) == IF Bit(m, k) THEN m - Pow2[k] ELSE m + Pow2[k]
